@@ -99,7 +99,7 @@ func runC01(c *core.Ctx) {
 	k := kFor(c, 2, 3)
 	c.Rule = fmt.Sprintf("explicit-state BFS over atom sequences (every leaf type/value, leaf-list, list entry, presence container of the corpus schemas) up to k=%d populated nodes on fresh real GoStructs, deduplicated by observed Model; every state x every JSON option is rendered, unmarshalled into an empty root and re-rendered; non-trivial = state whose JSON is not {}", k)
 	c.R.Assume("builder and observer (reflection walk over struct tags) are correct; union atoms are lexically unambiguous")
-	exploreAll(c, core.Packages(), k, nil, func(sp *core.Space, st core.State) {
+	exploreAll(c, core.PackagesWithRev(), k, nil, func(sp *core.Space, st core.State) {
 		atoms := sp.SeqAtoms(st)
 		opts := c01Opts
 		if sp.P.Compressed && !sp.P.IgnoreShadow {
@@ -130,7 +130,7 @@ func replayC01(c *core.Ctx, raw []byte) (bool, string) {
 	if err := json.Unmarshal(raw, &tc); err != nil {
 		return false, err.Error()
 	}
-	p := core.PkgByName(tc.Pkg)
+	p := core.AnyPkgByName(tc.Pkg)
 	if p == nil {
 		return false, "unknown package"
 	}
